@@ -130,7 +130,7 @@ func (s *vStore) CreateProcessing(_ context.Context, p *types.Processing, count 
 }
 
 func (s *vStore) DeleteProcessing(_ context.Context, p *types.Processing) error {
-	if s.w.frozen {
+	if s.w.fault("store.DeleteProcessing") {
 		return vErrInjected
 	}
 	delete(s.w.processing, p.Nodename)
@@ -163,10 +163,15 @@ func (e *vEngine) VirtualizationInspect(_ context.Context, id string) (*enginety
 	return &enginetypes.VirtualizationInfo{ID: id, Running: e.w.running[id]}, nil
 }
 
-// VerifCreateOp: CreateWorkload with AUTO over two nodes.  arg: fault=,count=
+// VerifCreateOp: CreateWorkload with AUTO over two nodes.
+// arg: fault=<max position of the single fault>,count=<max instances>,slots=<max per node>,
+//
+//	two=<1: instead of one positional fault, two independent per-instance failures>
 func VerifCreateOp(arg string) {
 	maxFault := vParam(arg, "fault", 16)
 	maxCount := vParam(arg, "count", 2)
+	maxSlots := vParam(arg, "slots", 2)
+	twoFaults := vParam(arg, "two", 0) == 1
 	c, st := vCluster(2, 1)
 	w := &vWorld{st: st, usage: map[string]int{}, capacity: map[string]int{}, applied: map[string]int{}, running: map[string]bool{},
 		slots: map[string]int{}, processing: map[string]int{}}
@@ -177,11 +182,26 @@ func VerifCreateOp(arg string) {
 	eng := &vEngine{w: w}
 	for _, n := range []string{"a", "b"} {
 		st.nodes[n].Engine = eng
-		w.slots[n] = vInt("slots_"+n, 0, 2)
+		w.slots[n] = vInt("slots_"+n, 0, maxSlots)
 	}
 	amount := vInt("amount", 0, 1<<30)
 	count := vInt("count", 1, maxCount)
-	w.faultAt = vChoose("fault_at", maxFault+1)
+	if twoFaults {
+		// two independent failures among the per-instance forward steps (their
+		// compensations use other calls and succeed)
+		sites := []string{"engine.VirtualizationCreate", "store.AddWorkload", "engine.VirtualizationStart", "engine.VirtualizationInspect"}
+		w.siteFaults, w.siteCalls = map[string]map[int]bool{}, map[string]int{}
+		for _, tag := range []string{"first", "second"} {
+			site := sites[vChoose(tag+"_failing_step", len(sites))]
+			occ := vChoose(tag+"_failing_occurrence", maxCount) + 1
+			if w.siteFaults[site] == nil {
+				w.siteFaults[site] = map[int]bool{}
+			}
+			w.siteFaults[site][occ] = true
+		}
+	} else {
+		w.faultAt = vChoose("fault_at", maxFault+1)
+	}
 
 	opts := &types.DeployOptions{
 		Name: "app", Podname: "p1", Image: "img", Count: count, DeployStrategy: strategy.Auto, IgnorePull: true,
@@ -232,8 +252,8 @@ func VerifCreateOp(arg string) {
 	// is not compensated (Txn rolls back nothing for a failed condition)
 	vKnown("F-C10-create-alloc-not-compensated", w.leakRegion)
 	// every failure leaves no record, container or usage behind (C11/C12); usage = ledger (C10)
-	vAssert("C11/create-records-exactly-the-successes", len(w.st.workloads) == okCount)
-	vAssert("C11/create-leaves-no-stray-container", len(w.applied) == okCount)
+	vAssert("C11,C12/create-records-exactly-the-successes", len(w.st.workloads) == okCount)
+	vAssert("C11,C12/create-leaves-no-stray-container", len(w.applied) == okCount)
 	for _, n := range []string{"a", "b"} {
 		sum := 0
 		for _, wl := range w.st.workloads {
@@ -241,13 +261,15 @@ func VerifCreateOp(arg string) {
 				sum += vAmount(wl.Resources)
 			}
 		}
-		vAssert("C10,C11/usage-equals-sum-of-recorded-workloads", w.usage[n] == sum)
+		vAssert("C10,C11,C12/usage-equals-sum-of-recorded-workloads", w.usage[n] == sum)
 		if okCount == 0 {
 			vAssert("C11/failed-create-leaves-no-usage", w.usage[n] == 0)
 		}
 		vAssert("C11/create-places-within-reported-capacity", perNode[n] <= vConcrete(w.slots[n]))
 	}
-	vAssert("C12/no-in-progress-marker-remains", len(w.processing) == 0)
+	if w.site != "store.DeleteProcessing" {
+		vAssert("C12/no-in-progress-marker-remains", len(w.processing) == 0)
+	}
 	vAssert("C20/everything-released", len(w.st.held) == 0)
 }
 
